@@ -81,6 +81,12 @@ def Rem.state : Rem → Dechunker
   | .atTrailer _ _ => .trailer
   | .done => .ended
 
+/-- the data still to come from the chunk the position is in (or about to enter) -/
+def Rem.curChunk : Rem → Bytes
+  | .atSize (c :: _) _ _ => c.data
+  | .inChunk d _ _ _ => d
+  | _ => []
+
 /-- window precondition: a transient trailer state always sees its line end -/
 def Rem.winOk : Rem → Nat → Prop
   | .atTrailer t _, m => t.length + 2 ≤ m
@@ -203,22 +209,25 @@ theorem stepOnce2_inv (r : Rem) (hr : r.wf) (tail : Bytes) (m cap : Nat) (hw : r
       r.enc.drop n = r'.enc ∧ n ≤ r.enc.length ∧
       r.payload = out ++ r'.payload ∧
       r'.winOk (m - n) ∧ (more = false → r'.atRest) ∧
-      (more = true → 0 < n ∨ (r.state = .ending ∧ r'.state = .trailer)) := by
+      (more = true → 0 < n ∨ (r.state = .ending ∧ r'.state = .trailer)) ∧
+      out <+: r.curChunk ∧ (r'.state = .size ∨ r.curChunk = out ++ r'.curChunk) ∧ (more = true → r'.state ≠ .size) ∧
+      (r.enc.length ≤ m → 1 ≤ cap → r.state ≠ .ended → 0 < n ∨ (more = true ∧ r'.state = .trailer)) := by
   cases r with
   | done =>
     refine ⟨false, .done, 0, [], ?_⟩
-    simp [Rem.state, stepOnce2, stepOnce, Rem.wf, Rem.enc, Rem.payload, Rem.winOk, Rem.atRest, pure, Except.pure]
+    simp [Rem.state, stepOnce2, stepOnce, Rem.wf, Rem.enc, Rem.payload, Rem.winOk, Rem.atRest, Rem.curChunk, pure, Except.pure]
   | atCrlf cs last trs =>
     have h := findCrlf_take [] (encTail cs last trs ++ tail) (by simp) m
     by_cases hm : 2 ≤ m
     · refine ⟨false, .atSize cs last trs, 2, [], ?_⟩
       simp [Rem.state, stepOnce2, stepOnce, Rem.enc] at h ⊢
-      simp [h, hm, pure, Except.pure, Rem.wf, Rem.payload, Rem.winOk, Rem.atRest]
+      simp [h, hm, pure, Except.pure, Rem.wf, Rem.payload, Rem.winOk, Rem.atRest, Rem.curChunk]
       exact hr
     · refine ⟨false, .atCrlf cs last trs, 0, [], ?_⟩
       simp [Rem.state, stepOnce2, stepOnce, Rem.enc] at h ⊢
-      simp [h, hm, pure, Except.pure, Rem.wf, Rem.payload, Rem.winOk, Rem.atRest]
-      exact hr
+      simp [h, hm, pure, Except.pure, Rem.wf, Rem.payload, Rem.winOk, Rem.atRest, Rem.curChunk]
+      refine ⟨hr, ?_⟩
+      intro h1; omega
   | inChunk d cs last trs =>
     obtain ⟨hd, ht⟩ := hr
     let w := ((d ++ ([CR, LF] ++ encTail cs last trs)) ++ tail).take m
@@ -244,19 +253,31 @@ theorem stepOnce2_inv (r : Rem) (hr : r.wf) (tail : Bytes) (m cap : Nat) (hw : r
     · have hn : n = d.length := by omega
       refine ⟨decide (n > 0), .atCrlf cs last trs, n, d.take n, ?_⟩
       simp only [Rem.state, stepOnce2, stepOnce, Rem.enc, pure, Except.pure]
-      refine ⟨?_, ht, hnm, by simp; omega, ?_, by simp; omega, ?_, trivial, fun _ => trivial, ?_⟩
+      refine ⟨?_, ht, hnm, by simp; omega, ?_, by simp; omega, ?_, trivial, fun _ => trivial, ?_, List.take_prefix _ _, ?_, by simp [Rem.state], ?_⟩
       · show Except.ok (decide (n > 0), (if d.length - n = 0 then Dechunker.crlf else Dechunker.chunk (d.length - n)), n, w.take n) = _
         simp [hfull, htake, Rem.state]
       · rw [hdrop, hn]; simp
       · rw [hn]; simp [Rem.payload]
       · intro _; left; omega
+      · right; rw [hn]; simp [Rem.curChunk]
+      · intro h1 h2 _; left
+        have hwl2 : w.length = min m ((d ++ ([CR, LF] ++ encTail cs last trs)) ++ tail).length := by simp [w]
+        simp [Rem.enc] at h1
+        simp at hwl2
+        omega
     · refine ⟨decide (n > 0), .inChunk (d.drop n) cs last trs, n, d.take n, ?_⟩
       simp only [Rem.state, stepOnce2, stepOnce, Rem.enc, pure, Except.pure]
-      refine ⟨?_, ⟨by simp; omega, ht⟩, hnm, by simp; omega, hdrop, by simp; omega, ?_, trivial, fun _ => trivial, ?_⟩
+      refine ⟨?_, ⟨by simp; omega, ht⟩, hnm, by simp; omega, hdrop, by simp; omega, ?_, trivial, fun _ => trivial, ?_, List.take_prefix _ _, ?_, by simp [Rem.state], ?_⟩
       · show Except.ok (decide (n > 0), (if d.length - n = 0 then Dechunker.crlf else Dechunker.chunk (d.length - n)), n, w.take n) = _
         simp [hfull, htake, Rem.state]
       · simp only [Rem.payload]; rw [← List.append_assoc, List.take_append_drop]
       · intro h; left; simpa using h
+      · right; simp [Rem.curChunk]
+      · intro h1 h2 _; left
+        have hwl2 : w.length = min m ((d ++ ([CR, LF] ++ encTail cs last trs)) ++ tail).length := by simp [w]
+        simp [Rem.enc] at h1
+        simp at hwl2
+        omega
   | atSize cs last trs =>
     obtain ⟨hcs, hlast, hzero, htrs⟩ := hr
     cases cs with
@@ -274,7 +295,7 @@ theorem stepOnce2_inv (r : Rem) (hr : r.wf) (tail : Bytes) (m cap : Nat) (hw : r
             ((last.digits ++ (last.ext ++ ([CR, LF] ++ (encTrailers trs ++ [CR, LF] ++ tail)))).take m) cap =
             .ok (true, (Rem.atEnding trs).state, last.digits.length + last.ext.length + 2, []) := by
           simp only [Rem.state, stepOnce2, stepOnce]; rw [h]; simp [hm, hzero, bind, Except.bind, pure, Except.pure]
-        refine ⟨hstep, htrs, hm, by simp, ?_, ?_, by simp [Rem.payload, payloadOf], trivial, by simp, by intro _; left; omega⟩
+        refine ⟨hstep, htrs, hm, by simp, ?_, ?_, by simp [Rem.payload, payloadOf], trivial, by simp, by intro _; left; omega, by simp [Rem.curChunk, Rem.state], by simp [Rem.curChunk, Rem.state], by simp [Rem.curChunk, Rem.state], by intro _ _ _; left; omega⟩
         · rw [henc]; exact drop_len_append _ _ _ (by simp; omega)
         · rw [henc]; simp; omega
       · refine ⟨false, .atSize [] last trs, 0, [], ?_⟩
@@ -282,7 +303,7 @@ theorem stepOnce2_inv (r : Rem) (hr : r.wf) (tail : Bytes) (m cap : Nat) (hw : r
             ((last.digits ++ (last.ext ++ ([CR, LF] ++ (encTrailers trs ++ [CR, LF] ++ tail)))).take m) cap =
             .ok (false, (Rem.atSize [] last trs).state, 0, []) := by
           simp only [Rem.state, stepOnce2, stepOnce]; rw [h]; simp [hm, bind, Except.bind, pure, Except.pure]
-        exact ⟨hstep, ⟨hcs, hlast, hzero, htrs⟩, by omega, by simp, by simp, by omega, by simp, trivial, fun _ => trivial, by simp⟩
+        exact ⟨hstep, ⟨hcs, hlast, hzero, htrs⟩, by omega, by simp, by simp, by omega, by simp, trivial, fun _ => trivial, by simp, by simp [Rem.curChunk, Rem.state], by simp [Rem.curChunk, Rem.state], by simp [Rem.curChunk, Rem.state], by intro h1 _ _; rw [henc] at h1; simp at h1; omega⟩
     | cons c cs =>
       have hc : c.wf := hcs c (by simp)
       obtain ⟨hcl, hcv, hcpos⟩ := hc
@@ -301,7 +322,7 @@ theorem stepOnce2_inv (r : Rem) (hr : r.wf) (tail : Bytes) (m cap : Nat) (hw : r
             .ok (true, (Rem.inChunk c.data cs last trs).state, c.line.digits.length + c.line.ext.length + 2, []) := by
           simp only [Rem.state, stepOnce2, stepOnce]; rw [h]; simp [hm, hnz, hcv, bind, Except.bind, pure, Except.pure]
           intro he; simp [he] at hcpos
-        refine ⟨hstep, ⟨hcpos, fun x hx => hcs x (by simp [hx]), hlast, hzero, htrs⟩, hm, by simp, ?_, ?_, by simp [Rem.payload, payloadOf_cons], trivial, by simp, by intro _; left; omega⟩
+        refine ⟨hstep, ⟨hcpos, fun x hx => hcs x (by simp [hx]), hlast, hzero, htrs⟩, hm, by simp, ?_, ?_, by simp [Rem.payload, payloadOf_cons], trivial, by simp, by intro _; left; omega, by simp [Rem.curChunk, Rem.state], by simp [Rem.curChunk, Rem.state], by simp [Rem.curChunk, Rem.state], by intro _ _ _; left; omega⟩
         · rw [henc]; exact drop_len_append _ _ _ (by simp; omega)
         · rw [henc]; simp; omega
       · refine ⟨false, .atSize (c :: cs) last trs, 0, [], ?_⟩
@@ -309,7 +330,7 @@ theorem stepOnce2_inv (r : Rem) (hr : r.wf) (tail : Bytes) (m cap : Nat) (hw : r
             ((c.line.digits ++ (c.line.ext ++ ([CR, LF] ++ (c.data ++ ([CR, LF] ++ (encChunks cs ++ (last.enc ++ (encTrailers trs ++ [CR, LF])))) ++ tail)))).take m) cap =
             .ok (false, (Rem.atSize (c :: cs) last trs).state, 0, []) := by
           simp only [Rem.state, stepOnce2, stepOnce]; rw [h]; simp [hm, bind, Except.bind, pure, Except.pure]
-        exact ⟨hstep, ⟨hcs, hlast, hzero, htrs⟩, by omega, by simp, by simp, by omega, by simp, trivial, fun _ => trivial, by simp⟩
+        exact ⟨hstep, ⟨hcs, hlast, hzero, htrs⟩, by omega, by simp, by simp, by omega, by simp, trivial, fun _ => trivial, by simp, by simp [Rem.curChunk, Rem.state], by simp [Rem.curChunk, Rem.state], by simp [Rem.curChunk, Rem.state], by intro h1 _ _; rw [henc] at h1; simp at h1; omega⟩
   | atEnding trs =>
     cases trs with
     | nil =>
@@ -320,11 +341,11 @@ theorem stepOnce2_inv (r : Rem) (hr : r.wf) (tail : Bytes) (m cap : Nat) (hw : r
       · refine ⟨true, .done, 2, [], ?_⟩
         have hstep : stepOnce2 (Rem.atEnding []).state ((([] : Bytes) ++ CR :: LF :: tail).take m) cap = .ok (true, Rem.done.state, 2, []) := by
           simp only [Rem.state, stepOnce2, stepOnce]; rw [h]; simp [hm, pure, Except.pure]
-        exact ⟨hstep, trivial, hm, by simp, by simp [Rem.enc, encTrailers], by simp [Rem.enc, encTrailers], by simp [Rem.payload], trivial, by simp, by intro _; left; omega⟩
+        exact ⟨hstep, trivial, hm, by simp, by simp [Rem.enc, encTrailers], by simp [Rem.enc, encTrailers], by simp [Rem.payload], trivial, by simp, by intro _; left; omega, by simp [Rem.curChunk, Rem.state], by simp [Rem.curChunk, Rem.state], by simp [Rem.curChunk, Rem.state], by intro _ _ _; left; omega⟩
       · refine ⟨false, .atEnding [], 0, [], ?_⟩
         have hstep : stepOnce2 (Rem.atEnding []).state ((([] : Bytes) ++ CR :: LF :: tail).take m) cap = .ok (false, (Rem.atEnding []).state, 0, []) := by
           simp only [Rem.state, stepOnce2, stepOnce]; rw [h]; simp [hm, pure, Except.pure]
-        exact ⟨hstep, hr, by omega, by simp, by simp, by omega, by simp, trivial, fun _ => trivial, by simp⟩
+        exact ⟨hstep, hr, by omega, by simp, by simp, by omega, by simp, trivial, fun _ => trivial, by simp, by simp [Rem.curChunk, Rem.state], by simp [Rem.curChunk, Rem.state], by simp [Rem.curChunk, Rem.state], by intro h1 _ _; simp [Rem.enc, encTrailers] at h1; omega⟩
     | cons t ts =>
       have ht : trailerWf t := hr t (by simp)
       have hts : ∀ x ∈ ts, trailerWf x := fun x hx => hr x (by simp [hx])
@@ -340,11 +361,11 @@ theorem stepOnce2_inv (r : Rem) (hr : r.wf) (tail : Bytes) (m cap : Nat) (hw : r
       · refine ⟨true, .atTrailer t ts, 0, [], ?_⟩
         have hstep : stepOnce2 (Rem.atEnding (t :: ts)).state ((t ++ CR :: LF :: (encTrailers ts ++ [CR, LF] ++ tail)).take m) cap = .ok (true, (Rem.atTrailer t ts).state, 0, []) := by
           simp only [Rem.state, stepOnce2, stepOnce]; rw [h]; simp [hm, pure, Except.pure]; exact ht.1
-        exact ⟨hstep, ⟨ht, hts⟩, by omega, by simp, by simp [Rem.enc, encTrailers_cons], by omega, by simp [Rem.payload], by simpa [Rem.winOk] using hm, by simp, by intro _; right; simp [Rem.state]⟩
+        exact ⟨hstep, ⟨ht, hts⟩, by omega, by simp, by simp [Rem.enc, encTrailers_cons], by omega, by simp [Rem.payload], by simpa [Rem.winOk] using hm, by simp, by intro _; right; simp [Rem.state], by simp [Rem.curChunk, Rem.state], by simp [Rem.curChunk, Rem.state], by simp [Rem.curChunk, Rem.state], by intro _ _ _; right; simp [Rem.state]⟩
       · refine ⟨false, .atEnding (t :: ts), 0, [], ?_⟩
         have hstep : stepOnce2 (Rem.atEnding (t :: ts)).state ((t ++ CR :: LF :: (encTrailers ts ++ [CR, LF] ++ tail)).take m) cap = .ok (false, (Rem.atEnding (t :: ts)).state, 0, []) := by
           simp only [Rem.state, stepOnce2, stepOnce]; rw [h]; simp [hm, pure, Except.pure]
-        exact ⟨hstep, hr, by omega, by simp, by simp, by omega, by simp, trivial, fun _ => trivial, by simp⟩
+        exact ⟨hstep, hr, by omega, by simp, by simp, by omega, by simp, trivial, fun _ => trivial, by simp, by simp [Rem.curChunk, Rem.state], by simp [Rem.curChunk, Rem.state], by simp [Rem.curChunk, Rem.state], by intro h1 _ _; simp [Rem.enc, encTrailers_cons] at h1; omega⟩
   | atTrailer t ts =>
     obtain ⟨ht, hts⟩ := hr
     have hm : t.length + 2 ≤ m := hw
@@ -359,7 +380,7 @@ theorem stepOnce2_inv (r : Rem) (hr : r.wf) (tail : Bytes) (m cap : Nat) (hw : r
     refine ⟨true, .atEnding ts, t.length + 2, [], ?_⟩
     have hstep : stepOnce2 (Rem.atTrailer t ts).state ((t ++ CR :: LF :: (encTrailers ts ++ [CR, LF] ++ tail)).take m) cap = .ok (true, (Rem.atEnding ts).state, t.length + 2, []) := by
       simp only [Rem.state, stepOnce2, stepOnce]; rw [h]; simp [hm, pure, Except.pure]; exact ht.1
-    refine ⟨hstep, hts, hm, by simp, ?_, by simp [Rem.enc], by simp [Rem.payload], trivial, by simp, by intro _; left; omega⟩
+    refine ⟨hstep, hts, hm, by simp, ?_, by simp [Rem.enc], by simp [Rem.payload], trivial, by simp, by intro _; left; omega, by simp [Rem.curChunk, Rem.state], by simp [Rem.curChunk, Rem.state], by simp [Rem.curChunk, Rem.state], by intro _ _ _; left; omega⟩
     have : (Rem.atTrailer t ts).enc = (t ++ [CR, LF]) ++ (Rem.atEnding ts).enc := by simp [Rem.enc]
     rw [this]; exact drop_len_append _ _ _ (by simp)
 
@@ -381,33 +402,61 @@ theorem parseInputS_inv (fuel : Nat) : ∀ (r : Rem), r.wf → ∀ (tail : Bytes
     ∃ (r' : Rem) (n : Nat) (out : Bytes),
       parseInputS fuel r.state ((r.enc ++ tail).take m) cap = (r'.state, .ok (n, out)) ∧
       r'.wf ∧ n ≤ m ∧ out.length ≤ cap ∧ r.enc.drop n = r'.enc ∧ n ≤ r.enc.length ∧
-      r.payload = out ++ r'.payload ∧ r'.atRest := by
+      r.payload = out ++ r'.payload ∧ r'.atRest ∧
+      out <+: r.curChunk ∧ (r'.state = .size ∨ r.curChunk = out ++ r'.curChunk) ∧
+      (r.enc.length ≤ m → 1 ≤ cap → r.state ≠ .ended → 0 < n) := by
   induction fuel with
   | zero =>
     intro r hr tail m cap _ hf
     unfold fuelNeed at hf; split at hf <;> omega
   | succ fuel ih =>
     intro r hr tail m cap hw hf
-    obtain ⟨more, r1, n1, o1, hstep, hwf1, hn1m, ho1, hd1, hn1, hp1, hw1, hrest, hprog⟩ := stepOnce2_inv r hr tail m cap hw
+    obtain ⟨more, r1, n1, o1, hstep, hwf1, hn1m, ho1, hd1, hn1, hp1, hw1, hrest, hprog, hck1, hck2, hck3, hlive⟩ := stepOnce2_inv r hr tail m cap hw
     cases more with
     | false =>
-      refine ⟨r1, n1, o1, ?_, hwf1, hn1m, ho1, hd1, hn1, hp1, hrest rfl⟩
-      simp [parseInputS, hstep]
+      refine ⟨r1, n1, o1, ?_, hwf1, hn1m, ho1, hd1, hn1, hp1, hrest rfl, hck1, hck2, ?_⟩
+      · simp [parseInputS, hstep]
+      · intro h1 h2 h3
+        rcases hlive h1 h2 h3 with h | ⟨h, _⟩
+        · exact h
+        · simp at h
     | true =>
       have hfuel1 : fuelNeed r1 (m - n1) ≤ fuel := by
         unfold fuelNeed at hf ⊢
         rcases hprog rfl with hpos | ⟨he, ht⟩
         · split at hf <;> split <;> omega
         · simp [he] at hf; simp [ht]; omega
-      obtain ⟨r2, n2, o2, hrec, hwf2, hn2m, ho2, hd2, hn2, hp2, hrest2⟩ :=
+      obtain ⟨r2, n2, o2, hrec, hwf2, hn2m, ho2, hd2, hn2, hp2, hrest2, hk1, hk2, hk3⟩ :=
         ih r1 hwf1 tail (m - n1) (cap - o1.length) hw1 hfuel1
-      refine ⟨r2, n1 + n2, o1 ++ o2, ?_, hwf2, by omega, by simp; omega, ?_, ?_, ?_, hrest2⟩
+      have hcur : r.curChunk = o1 ++ r1.curChunk := by
+        rcases hck2 with h | h
+        · exact absurd h (hck3 rfl)
+        · exact h
+      refine ⟨r2, n1 + n2, o1 ++ o2, ?_, hwf2, by omega, by simp; omega, ?_, ?_, ?_, hrest2, ?_, ?_, ?_⟩
       · simp only [parseInputS, hstep, if_true]
         rw [window_advance r.enc r1.enc tail n1 m hd1 hn1, hrec]
       · rw [← List.drop_drop, hd1, hd2]
       · have : r1.enc.length = r.enc.length - n1 := by rw [← hd1]; simp
         omega
       · rw [hp1, hp2]; simp
+      · rw [hcur]; exact (List.prefix_append_right_inj o1).mpr hk1
+      · rcases hk2 with h | h
+        · exact Or.inl h
+        · right; rw [hcur, h]; simp
+      · intro h1 h2 h3
+        rcases hlive h1 h2 h3 with h | ⟨_, htr⟩
+        · omega
+        · -- the step only recognised a trailer line (n1 = 0, no output): the next step consumes it
+          have hn0 : n1 = 0 ∨ 0 < n1 := by omega
+          rcases hn0 with hz | hp
+          · have ho : o1 = [] := by
+              rcases hck2 with hh | hh
+              · rw [htr] at hh; simp at hh
+              · have := hck1; cases r <;> simp_all [Rem.curChunk, Rem.state]
+            have he1 : r1.enc = r.enc := by rw [← hd1, hz]; simp
+            have := hk3 (by rw [he1, hz]; simpa using h1) (by rw [ho]; simpa using h2) (by rw [htr]; simp)
+            omega
+          · omega
 
 theorem rem_state_ended_iff (r : Rem) (hr : r.atRest) : r.state = .ended ↔ r.enc = [] := by
   cases r <;> simp [Rem.state, Rem.enc, encTail, SizeLine.enc, Rem.atRest] at hr ⊢
@@ -424,40 +473,47 @@ theorem readChunkedS_inv (fuel : Nat) : ∀ (r : Rem), r.wf → r.atRest → ∀
     ∃ (r' : Rem) (n : Nat) (out : Bytes),
       readChunkedS fuel r.state ((r.enc ++ tail).take m) cap stop = (r'.state, .ok (n, out)) ∧
       r'.wf ∧ r'.atRest ∧ n ≤ m ∧ out.length ≤ cap ∧ r.enc.drop n = r'.enc ∧ n ≤ r.enc.length ∧
-      r.payload = out ++ r'.payload := by
+      r.payload = out ++ r'.payload ∧ (stop = true → out <+: r.curChunk) ∧
+      (r.enc.length ≤ m → 1 ≤ cap → r.state ≠ .ended → 0 < n) := by
   induction fuel with
   | zero => intro r _ _ tail m cap stop _ hf; omega
   | succ fuel ih =>
     intro r hr hrest tail m cap stop hm hf
     have hlen : ((r.enc ++ tail).take m).length = m := by rw [List.length_take]; omega
-    obtain ⟨r1, n1, o1, hin, hwf1, hn1m, ho1, hd1, hn1, hp1, hrest1⟩ :=
+    obtain ⟨r1, n1, o1, hin, hwf1, hn1m, ho1, hd1, hn1, hp1, hrest1, hq1, hq2, hq4⟩ :=
       parseInputS_inv (2 * ((r.enc ++ tail).take m).length + 4) r hr tail m cap (winOk_of_atRest r hrest m)
         (by rw [hlen]; exact fuelNeed_le r m)
     simp only [readChunkedS, hin]
     by_cases hbreak : (n1 == 0 || n1 == ((r.enc ++ tail).take m).length || o1.length == cap) = true
     · simp only [hbreak, if_true]
-      exact ⟨r1, n1, o1, rfl, hwf1, hrest1, hn1m, ho1, hd1, hn1, hp1⟩
+      exact ⟨r1, n1, o1, rfl, hwf1, hrest1, hn1m, ho1, hd1, hn1, hp1, fun _ => hq1, hq4⟩
     · simp only [hbreak, if_false]
       by_cases hend : (r1.state == Dechunker.ended) = true
       · simp only [hend, if_true]
-        exact ⟨r1, n1, o1, rfl, hwf1, hrest1, hn1m, ho1, hd1, hn1, hp1⟩
+        exact ⟨r1, n1, o1, rfl, hwf1, hrest1, hn1m, ho1, hd1, hn1, hp1, fun _ => hq1, hq4⟩
       · simp only [hend, if_false]
         by_cases hstop : (stop && r1.state == Dechunker.size) = true
         · simp only [hstop, if_true]
-          exact ⟨r1, n1, o1, rfl, hwf1, hrest1, hn1m, ho1, hd1, hn1, hp1⟩
+          exact ⟨r1, n1, o1, rfl, hwf1, hrest1, hn1m, ho1, hd1, hn1, hp1, fun _ => hq1, hq4⟩
         · simp only [hstop, if_false]
           have hn1pos : 0 < n1 := by
             simp at hbreak; omega
           have hm1 : m - n1 ≤ (r1.enc ++ tail).length := by
             rw [← hd1]; simp at hm ⊢; omega
-          obtain ⟨r2, n2, o2, hrec, hwf2, hrest2, hn2m, ho2, hd2, hn2, hp2⟩ :=
+          obtain ⟨r2, n2, o2, hrec, hwf2, hrest2, hn2m, ho2, hd2, hn2, hp2, hq3, _⟩ :=
             ih r1 hwf1 hrest1 tail (m - n1) (cap - o1.length) stop hm1 (by omega)
           rw [window_advance r.enc r1.enc tail n1 m hd1 hn1, hrec]
-          refine ⟨r2, n1 + n2, o1 ++ o2, rfl, hwf2, hrest2, by omega, by simp; omega, ?_, ?_, ?_⟩
+          refine ⟨r2, n1 + n2, o1 ++ o2, rfl, hwf2, hrest2, by omega, by simp; omega, ?_, ?_, ?_, ?_, fun _ _ _ => by omega⟩
           · rw [← List.drop_drop, hd1, hd2]
           · have : r1.enc.length = r.enc.length - n1 := by rw [← hd1]; simp
             omega
           · rw [hp1, hp2]; simp
+          · intro hs
+            have hns : r1.state ≠ .size := by
+              intro e; rw [hs, e] at hstop; simp at hstop
+            rcases hq2 with h | h
+            · exact absurd h hns
+            · rw [h]; exact (List.prefix_append_right_inj o1).mpr (hq3 hs)
 
 /-- one caller step: offer the next `m` unconsumed bytes (clamped to what exists), `cap` bytes of output -/
 structure ReadStep where
@@ -513,7 +569,7 @@ theorem C07_schedule (σ : List ReadStep) : ∀ (r : Rem), r.wf → r.atRest →
         rw [List.take_eq_take_min]
       have hwl : ((r.enc ++ tail).take m).length = m := by
         rw [List.length_take]; simp only [m]; omega
-      obtain ⟨r1, n1, o1, hread, hwf1, hrest1, hn1m, ho1, hd1, hn1, hp1⟩ :=
+      obtain ⟨r1, n1, o1, hread, hwf1, hrest1, hn1m, ho1, hd1, hn1, hp1, _, _⟩ :=
         readChunkedS_inv (((r.enc ++ tail).take m).length + 2) r hr hrest tail m s.cap s.stop
           (by simp only [m]; omega) (by rw [hwl]; omega)
       have hdrop : (r.enc ++ tail).drop n1 = r1.enc ++ tail := by
